@@ -1,7 +1,7 @@
 (** server.handleClient: what one received line turns into. Mirrors
     connection.go: line = strings.TrimSpace(line); empty -> ignored;
-    parts = strings.Fields(line); fewer than two fields -> UNTAGGED
-    "* BAD Invalid command format"; otherwise the switch on
+    parts = strings.Fields(line); fewer than two fields -> "<parts[0]> BAD
+    Invalid command format" (fact f_short_tagged); otherwise the switch on
     strings.ToUpper(parts[1]). *)
 From Coq Require Import String Ascii List.
 From Raven Require Import Base.GoStr Model.ProtoFacts Model.Protocol.
@@ -11,13 +11,13 @@ Definition string_of_str (s : str) : string := string_of_list_ascii s.
 
 Inductive line_class :=
 | LIgnored                       (* empty after TrimSpace: nothing is sent *)
-| LUntaggedBad                   (* one field only: "* BAD Invalid command format" *)
+| LShort (tag : str)             (* one field only: "<tag> BAD Invalid command format" (untagged "* BAD" before the fix) *)
 | LDispatch (tag : str) (word : string).
 
 Definition classify_line (line : str) : line_class :=
   match fields (trim_space line) with
   | [] => LIgnored
-  | [_] => LUntaggedBad
+  | [tag] => LShort tag
   | tag :: c :: _ => LDispatch tag (string_of_str (to_upper c))
   end.
 
@@ -25,5 +25,6 @@ Definition classify_line (line : str) : line_class :=
 Definition tagged_for_line (t : facts) (line : str) : nat * nat :=
   match classify_line line with
   | LDispatch _ w => replies_of t w
-  | _ => (0, 0)
+  | LShort _ => if f_short_tagged t then (1, 1) else (0, 0)
+  | LIgnored => (0, 0)
   end.
